@@ -350,6 +350,13 @@ Section Scan.
   Definition diff_exit (o : scan_out) : nat := if sc_differs o || sc_parity_invalid o then 2 else 0.
 End Scan.
 
+(* has_past_inodes of scan_file (scan.c:732) from what state_map (state.c:1403-1430) and scan_disk decide:
+   has_unsupported_uuid = the disk reports no UUID (empty, id 0); has_different_uuid = the recorded UUID differs from the
+   reported one -- an EMPTY recorded UUID differs from any reported one (it only suppresses the warning);
+   has_volatile_inodes = the file system does not keep inode numbers (FUSE/VFAT).  UUIDs are abstract ids, 0 = empty. *)
+Definition has_past_inodes (volatile : bool) (recorded current : N) : bool :=
+  negb volatile && negb (N.eqb current 0) && N.eqb recorded current.
+
 (* state.c reader with clear_past_hash && opt.force_nocopy: REP blocks are loaded as CHG with the INVALID hash *)
 Definition nocopy_load (c : content) : content :=
   mkC (map (fun od => match od with
